@@ -296,6 +296,10 @@ def run_mask_helpers(ctx):
         keep = [keep[int(j)] for j in r.choice(len(keep), size=70, replace=False)]
         rest = [t for t in sizes if t not in keep]
         sizes = keep + [rest[int(j)] for j in r.choice(len(rest), size=60, replace=False)]
+    else:   # thorough: every row / column block shape and a sample of 500 of the other 2900 triples
+        keep = [t for t in sizes if t[0] == 1 or t[1] == 1]
+        rest = [t for t in sizes if t[0] > 1 and t[1] > 1]
+        sizes = keep + [rest[int(j)] for j in r.choice(len(rest), size=500, replace=False)]
     for bh, bw, n in sizes:
         rr, cc = np.indices((bh * n, bw * n))
         got = np.asarray(fm.block_diag_mask((bh, bw), n))
@@ -304,7 +308,7 @@ def run_mask_helpers(ctx):
             ctx.violation(sig="masks.block_diag_mask:pattern-large", what=f"block_diag_mask(({bh}, {bw}), {n}) differs from the documented block-diagonal pattern"
                           f"{'' if got.shape != rr.shape else ' at ' + str(np.argwhere(got != ((rr // bh) == (cc // bw)))[:3].tolist())}",
                           case=dict(fn="block_diag_mask", block_shape=[bh, bw], n_blocks=n), found_input=True, unit=u.name, broken="mask-helpers (oracle) / C09_block_diag_closed_form")
-        for k in ((0, -1) if ctx.quick else (-2, -1, 0, 1, 2)):
+        for k in ((0, -1) if ctx.quick else (-1, 0, 1)):
             got = np.asarray(fm.block_tril_mask((bh, bw), n, k))
             ref = np.maximum(0, cc // bw - k) <= rr // bh
             u.count(("btril-large", bh, bw, n, k), nontrivial=n > 1, tag="btril-large")
